@@ -6,6 +6,7 @@ serialise/reparse round trip, and equals cssutils.profile.validate(name, value);
 rule/sheet validity is the conjunction; (4) validation on/off leaves the stored and serialised content identical."""
 
 import random
+import xml.dom
 
 from engine import core
 from models import css21_values as V
@@ -30,8 +31,8 @@ ASSUMPTIONS = [
     'values outside the CSS 2.1 grammar are asserted invalid only when no CSS level could accept them (nonsense, wrong token kinds)',
     'default profiles are unrestricted',
 ]
-MIN_EVENTS = {'quick': {'oracle.profile-switch': 12000, 'oracle.fontface-conjunction': 2200, 'oracle.grammar': 1100, 'oracle.metamorphic': 18000, 'oracle.paths': 4000, 'oracle.conjunction': 500, 'oracle.validate-onoff': 500},
-              'thorough': {'oracle.profile-switch': 250000, 'oracle.fontface-conjunction': 45000, 'oracle.grammar': 1100, 'oracle.metamorphic': 250000, 'oracle.paths': 55000, 'oracle.conjunction': 12000, 'oracle.validate-onoff': 12000}}
+MIN_EVENTS = {'quick': {'oracle.profile-switch': 12000, 'oracle.fontface-conjunction': 2200, 'oracle.grammar': 1100, 'oracle.metamorphic': 18000, 'oracle.paths': 4000, 'oracle.conjunction': 500, 'oracle.validate-onoff': 500, 'oracle.list-values': 350, 'oracle.no-comments-parser': 2500},
+              'thorough': {'oracle.profile-switch': 250000, 'oracle.fontface-conjunction': 45000, 'oracle.grammar': 1100, 'oracle.metamorphic': 250000, 'oracle.paths': 55000, 'oracle.conjunction': 12000, 'oracle.validate-onoff': 12000, 'oracle.list-values': 7000, 'oracle.no-comments-parser': 40000}}
 
 NEGATIVE_OK = {'margin-top', 'margin-right', 'margin-bottom', 'margin-left', 'top', 'right', 'bottom', 'left', 'z-index', 'text-indent',
                'letter-spacing', 'word-spacing', 'vertical-align'}  # fmt: skip
@@ -96,7 +97,7 @@ def spell(value, kind, rng):
             if kind == 'ws':
                 out.append(rng.choice([t, ' ' + t + ' ', t + ' ']))
             elif kind == 'comments':
-                out.append(rng.choice([t, '/*c*/' + t, t + '/*c*/ ']))
+                out.append(rng.choice([t, '/*c*/' + t, t + '/*c*/ ', ' /*c*/ ' + t, ' /**/ ' + t + ' ']))
             else:
                 out.append(t)
         else:
@@ -210,6 +211,12 @@ def judge_pair(ctx, cssutils, name, value, rng, vclass, expect=None, context='st
                 verdicts[kind] = 'DROPPED'
                 continue
             verdicts[kind] = bool(v)
+            if '/*' in text and context == 'style':
+                # the same text read by a parser that drops comments while tokenizing
+                ctx.count('oracle.no-comments-parser')
+                nc = cssutils.CSSParser(parseComments=False).parseString('zz{%s:%s}' % (pname, text))
+                pr = nc.cssRules[0].style.getProperties(all=True) if len(nc.cssRules) else []
+                verdicts[kind + '+parser-without-comments'] = bool(pr[0].valid) if pr else 'DROPPED'
             if deep:
                 continue  # (the serializer writes six fractional digits - C18 states that limit -: the value read back is another one)
             # round trip
@@ -235,6 +242,23 @@ def judge_pair(ctx, cssutils, name, value, rng, vclass, expect=None, context='st
             st = css.CSSStyleDeclaration()
             st.setProperty(name, value)
             verdicts['setProperty'] = bool(st.getProperties(all=True)[0].valid)
+            # ... and what was refused elsewhere just before says nothing about this declaration
+            which = rng.randrange(4)
+            try:
+                if which == 0:
+                    cssutils.stylesheets.MediaList().appendMedium('print, tv')
+                elif which == 1:
+                    cssutils.stylesheets.MediaQuery(rng.choice(['print, tv', 'tv $', 'print and']))
+                elif which == 2:
+                    cssutils.stylesheets.MediaList('tv')[0] = 'print tv'
+                else:
+                    css.Selector('a,, b')
+            except xml.dom.DOMException:
+                pass
+            try:
+                verdicts['Property() after refused edits elsewhere'] = bool(css.Property(name, value).valid)
+            except xml.dom.DOMException:
+                verdicts['Property() after refused edits elsewhere'] = 'REFUSED'
             st2 = css.CSSStyleDeclaration()
             st2[name] = value
             verdicts['setitem'] = bool(st2.getProperties(all=True)[0].valid)
@@ -343,6 +367,21 @@ def metamorphic_stream(ctx, cssutils, count):
                 ctx.violation('unknown-name-valid', {'kind': 'pair', 'name': nm, 'value': val}, {'Property.valid': v})
         except Exception as e:
             ctx.violation('exception', {'kind': 'pair', 'name': nm, 'value': val}, {'tb': core.short_tb(e)}, site=core.raise_site(e))
+
+
+LIST_PAIRS = [('font-family', 'x, y'), ('font-family', '"a b", c, serif'), ('font', '12px/14px serif'), ('font', 'bold 1em/1.2 x, y'), ('color', 'red, blue'),
+              ('font-family', 'x y, z'), ('font', '12px / 14px a, b'), ('voice-family', 'x, female'), ('cursor', 'url(a.cur), pointer'), ('width', '1px/2px'),
+              ('background-position', '0, 0'), ('font-family', 'a, b, c, d')]  # fmt: skip
+
+
+def list_stream(ctx, cssutils, reps):
+    """values that are lists (comma, slash): every placement of white space and comments around the separators"""
+    for i in range(reps * len(LIST_PAIRS)):
+        if not ctx.mine(i):
+            continue
+        name, value = LIST_PAIRS[i % len(LIST_PAIRS)]
+        ctx.count('oracle.list-values')
+        judge_pair(ctx, cssutils, name, value, ctx.rng('l', i), 'list', None, 'style')
 
 
 def sheets_stream(ctx, cssutils, count):
@@ -480,6 +519,7 @@ def run_worker(ctx):
     fontface_stream(ctx, cssutils, 3000 if quick else 60000)
     grammar_stream(ctx, cssutils)
     metamorphic_stream(ctx, cssutils, 4500 if quick else 70000)
+    list_stream(ctx, cssutils, 40 if quick else 800)
     sheets_stream(ctx, cssutils, 700 if quick else 15000)
     ctx.sample({'example': {'name': 'margin-top', 'value': '1px', 'spellings': [spell('1px solid red', k, random.Random(1)) for k in SPELLINGS]}})
 
